@@ -339,6 +339,17 @@ def run_case(case, ctx):
     outside = ctx.scratch / f"c03-{k}" / "outside"
     try:
         materialise(nodes, root, outside)
+        if case["git"]:
+            # the user's personal ignore file (outside the repository) counts as well: Git's verdict is the oracle, and the
+            # tool's Git sees the same environment
+            xdg = root.parent / "xdg"
+            (xdg / "git").mkdir(parents=True)
+            (xdg / "git" / "ignore").write_text("*.scratch\n.idea/\n")
+            os.environ["XDG_CONFIG_HOME"] = str(xdg)
+            (root / "notes.scratch").write_text("personal notes\n")
+            (root / ".idea").mkdir(exist_ok=True)
+            (root / ".idea" / "workspace.xml").write_text("<x/>\n")
+            res.cell("personal-ignore-file")
         submods = setup_git(rng, root, nodes) if case["git"] else []
         if not os.path.lexists(root / "subprojects") and rng.random() < 0.3:
             (root / "subprojects" / "libfoo").mkdir(parents=True)
@@ -469,5 +480,6 @@ def run_case(case, ctx):
             res.sample = {"git": case["git"], "options": opts, "nodes": [(n["path"], n["kind"]) for n in nodes][:25],
                           "covered": sorted(covered)[:15], "excluded": {a: b for a, b in list(reasons.items())[:15] if b != "covered"}}
     finally:
+        os.environ.pop("XDG_CONFIG_HOME", None)
         shutil.rmtree(ctx.scratch / f"c03-{k}", ignore_errors=True)
     return res.out()
